@@ -81,10 +81,11 @@ def main():
         if valid:
             dst = os.path.join(VERIF, 'seeded', sid)
             os.makedirs(dst, exist_ok=True)
-            shutil.copy(os.path.join(src, 'patch.diff'), os.path.join(dst, 'patch.diff'))
-            shutil.copy(os.path.join(src, 'demo.py'), os.path.join(dst, 'demo.py'))
-            if os.path.exists(os.path.join(src, 'README.md')):
-                shutil.copy(os.path.join(src, 'README.md'), os.path.join(dst, 'README.md'))
+            if os.path.realpath(src) != os.path.realpath(dst):
+                shutil.copy(os.path.join(src, 'patch.diff'), os.path.join(dst, 'patch.diff'))
+                shutil.copy(os.path.join(src, 'demo.py'), os.path.join(dst, 'demo.py'))
+                if os.path.exists(os.path.join(src, 'README.md')):
+                    shutil.copy(os.path.join(src, 'README.md'), os.path.join(dst, 'README.md'))
             first = res['detected_by_own_check']
             if os.path.exists(os.path.join(dst, 'meta.json')):
                 with open(os.path.join(dst, 'meta.json')) as fh:
